@@ -85,6 +85,13 @@ pub fn main() {
 			h.go(&sys, &Limits::depth(if thorough { 6 } else { 5 }).wall_secs(600), true);
 		}
 		not_exercised.extend(sys.unexercised());
+		// (1c) the same configurations with one more state-dependent symbol: a candle lying exactly on the
+		// indicator's own previous first value (touches and crossings by equality), a shorter depth
+		{
+			let sys = IndSys::new(&format!("{name}/depth/default+small/with-touch"), indicator_configs_small3(name), ks[..2].to_vec(), ks[..4].to_vec(), oracle, false).with_touch();
+			h.go(&sys, &Limits::depth(if thorough { 7 } else { 6 }).wall_secs(600), true);
+			tally!(sys);
+		}
 		// (2) every MA kind in every MA slot and every source, one slot varied at a time
 		let mut kinds = indicator_configs(Some(name), true);
 		kinds.drain(..kinds.len().min(2));
